@@ -494,7 +494,7 @@ def mentions_arg(term, n):
     return term_contains(term, lambda x: isinstance(x, tuple) and x and x[0] == 'arg' and x[1] == n)
 
 
-def resolve_env(crate, body, term, depth=0):
+def resolve_env(crate, body, term, depth=0, within=None):
     """replace the captured variables of a closure/coroutine body (`env.<name>`) by what the parent stored in the capture
     when it built the closure (so `let limit = self.config.x; move |..| f(limit)` is seen as f(self.config.x))"""
     if depth > 3 or body.kind not in ('closure', 'coroutine') or not body.parent:
@@ -519,6 +519,8 @@ def resolve_env(crate, body, term, depth=0):
                             idx.setdefault(a_['def'], []).append(bd)
             crate._closure_builders = idx
         bl = [x for x in idx.get(body.path, []) if x is not body]
+        if len(bl) > 1 and within is not None:
+            bl = [x for x in bl if any(x is w_ for w_ in within)]
         if len(bl) != 1:
             return term
         parent = bl[0]
@@ -526,7 +528,7 @@ def resolve_env(crate, body, term, depth=0):
     for bb, i, p, a, ops in mirlib.aggregates(parent):
         if a.get('kind') in ('closure', 'coroutine', 'coroutine_closure') and a.get('def') == body.path:
             for nm, op in zip(a.get('fields') or [], ops):
-                caps[nm] = resolve_env(crate, parent, parent.origin(op), depth + 1)
+                caps[nm] = resolve_env(crate, parent, parent.origin(op), depth + 1, within)
     if not caps:
         return term
 
